@@ -602,6 +602,41 @@ func c20SlotDataBody(st *c20SyncState, first int, depth int) {
 	}
 }
 
+// c20SlotDataCtrl: the real controller with the real sync committee messenger, aggregator and signer (C15's world)
+// for a validator that is a sync committee member throughout: a head event one second into every slot, for `slots`
+// slots; afterwards the number of slots whose inclusion data the messenger still holds.
+type c20SlotDataCtrlState struct {
+	verify bool
+	slots  int
+	kept   []phase0.Slot
+	msgs   int
+}
+
+func c20SlotDataCtrlBody(st *c20SlotDataCtrlState) {
+	st.kept, st.msgs = nil, 0
+	const s0 = 2
+	w := c15Build(c15WorldCfg{spec: c15Spec(32, 0, c15IndSize, c15IndSubnets, c15IndTarget), startSlot: s0, positions: map[phase0.ValidatorIndex][]phase0.CommitteeIndex{1: {0}},
+		real: true, verify: st.verify, delay: 4 * time.Second, before: func(w *c15World) {
+			for i := 0; i <= st.slots+2; i++ {
+				w.env.registerSelectionRoots(phase0.Slot(s0+i), 64)
+			}
+			w.duties.member = map[uint64]bool{}
+			for p := uint64(0); p <= uint64(st.slots)/64+1; p++ {
+				w.duties.member[p] = true
+			}
+			w.duties.armed = true
+		}})
+	defer w.cancel()
+	for i := 1; i <= st.slots; i++ {
+		slot := phase0.Slot(s0 + i)
+		mc.Sleep(int64(i)*int64(c15SlotDur) + int64(time.Second) - mc.Now())
+		w.ev.deliver("head", &apiv1.HeadEvent{Slot: slot, Block: c15Root(uint64(slot)), PreviousDutyDependentRoot: root(1), CurrentDutyDependentRoot: root(2)})
+	}
+	mc.Sleep(int64(c15SlotDur) / 2)
+	st.kept = w.msgr.VerifC20SlotDataRecordSlots()
+	st.msgs = len(w.node.messages)
+}
+
 // ---- units --------------------------------------------------------------------------------------
 
 func c20Units(tier string) []hx.Unit {
@@ -756,6 +791,32 @@ func c20Units(tier string) []hx.Unit {
 				v.Violation, v.Key = v.Sample+": panic: "+firstLine(r.Panic), "C20/sync/panic/"+panicSite(r.Panic)
 			} else if st.fail != "" {
 				v.Violation, v.Key = st.fail, "C20/sync/"+st.key
+			}
+			return v
+		}
+		units = append(units, u)
+	}
+	for _, verify := range []bool{false, true} {
+		st := &c20SlotDataCtrlState{verify: verify, slots: 120}
+		if tier == "thorough" {
+			st.slots = 400
+		}
+		name := "off"
+		if verify {
+			name = "on"
+		}
+		u := hx.Unit{Name: "C20/sync-slot-data-ctrl/verify-inclusion-" + name, Cfg: mc.Config{Fixed: true, Horizon: int64(3 * time.Hour)}}
+		u.Body = func() { c20SlotDataCtrlBody(st) }
+		u.Check = func(r *mc.Result) mc.Verdict {
+			v := mc.Verdict{Outcome: fmt.Sprintf("sync slot data (controller) messaged=%v", st.msgs > 0), Nontrivial: st.msgs > 0,
+				Sample: fmt.Sprintf("controller + messenger, verify-sync-committee-inclusion %s, %d slots with a head event each: data of %d slots held at the end", name, st.slots, len(st.kept))}
+			if r.Panic != "" {
+				v.Violation, v.Key = v.Sample+": panic: "+firstLine(r.Panic), "C20/sync/panic/"+panicSite(r.Panic)
+			} else if st.msgs < st.slots-2 {
+				v.Violation, v.Key = fmt.Sprintf("harness: the member messaged in %d of %d slots", st.msgs, st.slots), "C20/sync/harness"
+			} else if len(st.kept) > 101 {
+				v.Violation = fmt.Sprintf("controller and sync committee messenger with verify-sync-committee-inclusion %s: after %d slots, each with its head event, the messenger holds the inclusion data of %d slots (one more per slot)", name, st.slots, len(st.kept))
+				v.Key = "C20/sync/sync-slot-data-never-tidied/verify-" + name
 			}
 			return v
 		}
